@@ -31,7 +31,7 @@ for pid in ['C%02d' % i for i in range(1, 21)]:
 m = {
  'version': 1,
  'setup_cmd': 'sh ./setup.sh',
- 'hooks': {'guard': 'redis_rust_verif', 'enable': 'RUSTFLAGS="--cfg redis_rust_verif" (replay crate only; no proof depends on it)',
+ 'hooks': {'guard': 'verif-hooks', 'enable': 'cargo feature: redis-sim = { path = "/repo", features = ["verif-hooks"] } in the replay crate only; no proof depends on it',
            'baseline_off_cmd': 'cd /repo && RUSTC_WRAPPER= cargo test --workspace --no-fail-fast --offline',
            'source_commits': json.load(open(os.path.join(V, 'contracts', 'hooks.json')))['source_commits'], 'add_only': True},
  'engines': [{'name': 'vcheck', 'path': 'vcheck', 'serves_properties': sorted(reg),
